@@ -281,6 +281,11 @@ func runProperty(w *World, lib *SpecLib, p *Prover, id, tier string) *propRun {
 			obs = append(obs, lib.lemmaObs(lib.Lemmas[ln])...)
 		}
 	}
+	ros, rnotes := regexObs(w, id)
+	obs = append(obs, ros...)
+	for _, n := range rnotes {
+		run.assumed[n] = true
+	}
 	rs := p.dischargeAll(obs, globals)
 	byKey := map[string]*keyAgg{}
 	for _, r := range rs {
@@ -353,13 +358,27 @@ func (run *propRun) report(id, tier string, seed int, start time.Time, update bo
 			continue
 		}
 		var fails []map[string]any
+		input := false
+		var replayed map[string]any
 		for _, r := range a.Results {
 			if !r.Discharged() {
 				fails = append(fails, map[string]any{"path": r.Ob.Path, "status": r.Status, "solver": r.Solver, "answers": r.Answers,
 					"smt_file": r.File, "position": r.Ob.Pos, "clause": r.Ob.Clause, "solver_output": r.Output})
+				if r.Ob.Witness != nil && r.Status == "sat" && replayed == nil {
+					if rep := replayRegexWitness(run.w, r.Ob.Witness, r.Output); rep != nil {
+						replayed = rep
+						if rep["reproduced"] == true {
+							input = true
+						}
+					}
+				}
 			}
 		}
-		viols = append(viols, violation{Key: a.Key, Detail: map[string]any{"obligation": a.Key, "kind": a.Kind, "tags": a.Tags, "failing_paths": fails}})
+		det := map[string]any{"obligation": a.Key, "kind": a.Kind, "tags": a.Tags, "failing_paths": fails}
+		if replayed != nil {
+			det["replay_on_real_code"] = replayed
+		}
+		viols = append(viols, violation{Key: a.Key, Input: input, Detail: det})
 	}
 	for _, o := range run.ownObs {
 		total++
